@@ -284,10 +284,16 @@ def check_batch(part, ctx, seam, batch, subsets, x_rs, forms=('raw', 'elem', 'sc
         if 'scalar' in forms:
             # x_rs not a list: default argument (0) and one rotating scalar point
             pts = [(i + 1, shares[i]) for i in S]
-            for x_r in (None, x_rs[(si + L) % width]):
+            for x_r in (None, x_rs[(si + L) % width], [x_rs[(si + L + 1) % width]]):
                 try:
                     got = thresha.recombine(field, pts) if x_r is None else thresha.recombine(field, pts, x_r)
-                    ok = isinstance(got, list) and len(got) == L
+                    one = isinstance(x_r, list)     # one-element list of points: the result is a one-row matrix
+                    row = got
+                    if one:
+                        row = got[0] if isinstance(got, list) and len(got) == 1 else None
+                    ok = isinstance(row, list) and len(row) == L and not any(isinstance(g, list) for g in row)
+                    if ok and one:
+                        got, x_r = row, x_r[0]
                 except Exception as exc:
                     got, ok = repr(exc), False
                 xv = 0 if x_r is None else x_r
@@ -295,7 +301,9 @@ def check_batch(part, ctx, seam, batch, subsets, x_rs, forms=('raw', 'elem', 'sc
                 part.case(nontrivial=False, n=L - nz)
                 if not ok:
                     part.violation('C12:recombine:scalar:shape-or-exception', f'{ctx.name} t={t} m={m} subset={list(S)} '
-                                   f'x_r={x_r}: {str(got)[:200]}', detail(ctx, *batch[0], S, xv, 'scalar'))
+                                   f'{L} secrets, x_rs={x_r!r}: result {str(got)[:200]} is not ' +
+                                   ('a one-row matrix' if isinstance(x_r, list) else f'a flat list of {L} values'),
+                                   detail(ctx, *batch[0], S, xv[0] if isinstance(xv, list) else xv, 'scalar'))
                     continue
                 ws = ctx.weights(S, xv)
                 for h in range(L):
@@ -303,9 +311,10 @@ def check_batch(part, ctx, seam, batch, subsets, x_rs, forms=('raw', 'elem', 'sc
                     g = R.code_of(F, got[h])
                     if g != e:
                         s, c = batch[h]
-                        part.violation('C12:recombine:scalar:' + ('default-x_r' if x_r is None else 'x_r'),
+                        part.violation('C12:recombine:scalar:' + ('default-x_r' if x_r is None else 'one-element-list' if one else 'x_r'),
                                        f'{ctx.name} t={t} m={m} secret={s} coefficients={list(c)} shares {list(S)}='
-                                       f'{[yc[h] for yc in ycodes]}: recombine(points' + ('' if x_r is None else f', {x_r}') +
+                                       f'{[yc[h] for yc in ycodes]}: recombine(points' +
+                                       ('' if x_r is None else f', [{x_r}])[0' if one else f', {x_r}') +
                                        f') gives {g}, independent Lagrange gives {e}',
                                        dict(detail(ctx, s, c, S, xv, 'scalar'), default=x_r is None))
     if np is not None:
